@@ -17,6 +17,7 @@ import (
 	"runtime"
 	"runtime/debug"
 	"sync"
+	"sync/atomic"
 	"testing/synctest"
 	"time"
 	"unsafe"
@@ -59,6 +60,11 @@ func (k OpKind) String() string {
 
 // Models of blocking primitives. The scheduler decides eligibility from these
 // and never lets a task block on a real lock.
+
+// StepsTotal counts the scheduler steps of all runs of this process; a worker's
+// stall watchdog reads it to tell a run that is slow from one that is blocked
+// outside the simulator's control.
+var StepsTotal atomic.Int64
 
 // WallStep is one step of the wall clock in a run's fault plan.
 type WallStep struct{ At, Delta time.Duration }
@@ -1349,6 +1355,7 @@ func (s *Sim) strategyPick0(r *Rand, el []*Task) int {
 //go:norace
 func (s *Sim) runStep(t *Task) {
 	s.step++
+	StepsTotal.Add(1)
 	s.Stats.Steps++
 	t.Steps++
 	if s.last != t {
